@@ -197,16 +197,20 @@ func (r *lvRun) firstCloseAfter(port int, t0 time.Time) int64 {
 const lvT = 3 // heartbeat timeout (s) on both sides
 
 // scenario A: the path goes silent (black hole), later heals
-func (r *lvRun) scenarioSilent(mux bool) {
+func (r *lvRun) scenarioSilent(mux bool) { r.scenarioSilentOver(mux, "tcp") }
+
+// scenarioSilentOver: lvProto is the control transport (tcp, or websocket through the same tcp relay)
+func (r *lvRun) scenarioSilentOver(mux bool, lvProto string) {
 	sp := env.FreeTCPPort()
 	svc, stop := startServerOn(sp, env.Token, lvT, mux, false)
 	defer stop()
 	rl := newRelay(fmt.Sprintf("127.0.0.1:%d", sp))
 	cli, err := env.StartClient(rl.port, func(c *v1.ClientCommonConfig) {
 		c.Transport.TCPMux = lo.ToPtr(mux)
+		c.Transport.Protocol = lvProto
 		c.Transport.HeartbeatInterval = 1
 		c.Transport.HeartbeatTimeout = lvT
-	}, tcpProxies(fmt.Sprintf("a-%v", mux), fmt.Sprintf("b-%v", mux)), nil)
+	}, tcpProxies(fmt.Sprintf("a-%v-%s", mux, lvProto), fmt.Sprintf("b-%v-%s", mux, lvProto)), nil)
 	if err != nil {
 		panic(err)
 	}
@@ -239,21 +243,24 @@ func (r *lvRun) scenarioSilent(mux bool) {
 	if waitFor(25*time.Second, func() bool { return len(namesOf(svc)) == 2 }) {
 		rereg = time.Since(t1).Milliseconds()
 	}
-	r.sink.Emit("drv", "lv.silent", "mux", mux, "T_ms", lvT*1000, "server_dropped_ms", srvDropped, "resources_released_ms", portsFree,
+	r.sink.Emit("drv", "lv.silent", "mux", mux, "proto", lvProto, "T_ms", lvT*1000, "server_dropped_ms", srvDropped, "resources_released_ms", portsFree,
 		"client_closed_ms", cliClosed, "reregistered_ms", rereg)
 }
 
 // scenario D: a healthy peer is never dropped
-func (r *lvRun) scenarioHealthy(mux bool) {
+func (r *lvRun) scenarioHealthy(mux bool) { r.scenarioHealthyOver(mux, "tcp") }
+
+func (r *lvRun) scenarioHealthyOver(mux bool, lvProto string) {
 	sp := env.FreeTCPPort()
 	svc, stop := startServerOn(sp, env.Token, lvT, mux, false)
 	defer stop()
 	rl := newRelay(fmt.Sprintf("127.0.0.1:%d", sp))
 	cli, err := env.StartClient(rl.port, func(c *v1.ClientCommonConfig) {
 		c.Transport.TCPMux = lo.ToPtr(mux)
+		c.Transport.Protocol = lvProto
 		c.Transport.HeartbeatInterval = 1
 		c.Transport.HeartbeatTimeout = lvT
-	}, tcpProxies(fmt.Sprintf("h-%v", mux)), nil)
+	}, tcpProxies(fmt.Sprintf("h-%v-%s", mux, lvProto)), nil)
 	if err != nil {
 		panic(err)
 	}
@@ -269,7 +276,7 @@ func (r *lvRun) scenarioHealthy(mux bool) {
 	for _, c := range svc.VerifState().Ctls {
 		same = c.ID == id
 	}
-	r.sink.Emit("drv", "lv.healthy", "mux", mux, "duration_ms", time.Since(t0).Milliseconds(), "same_session", same, "client_closed", r.firstCloseAfter(rl.port, t0) >= 0)
+	r.sink.Emit("drv", "lv.healthy", "mux", mux, "proto", lvProto, "duration_ms", time.Since(t0).Milliseconds(), "same_session", same, "client_closed", r.firstCloseAfter(rl.port, t0) >= 0)
 }
 
 // scenario E: a peer that keeps sending invalid heartbeats is dropped like a silent one
@@ -486,6 +493,9 @@ func livenessCmd(args []string) int {
 		run(func() { r.scenarioSilent(true) })
 		run(func() { r.scenarioHealthy(false) })
 		run(func() { r.scenarioHealthy(true) })
+		// the same over the websocket transport (the relay carries it like any tcp connection)
+		run(func() { r.scenarioSilentOver(true, "websocket") })
+		run(func() { r.scenarioHealthyOver(false, "websocket") })
 		run(r.scenarioInvalidPings)
 		run(r.scenarioRestart)
 		run(r.scenarioSilentServer)
